@@ -191,6 +191,8 @@ func NewSession(cfg ClusterConfig) (*Session, error) {
 	//Check the TLS Config before trying to connect to anything external
 	connCfg, err := connConfig(&s.cfg)
 	if err != nil {
+		// stop the debouncer goroutines started above
+		s.Close()
 		//TODO: Return a typed error
 		return nil, fmt.Errorf("gocql: unable to create session: %v", err)
 	}
